@@ -84,4 +84,18 @@ CHECKS = {
         "design_ref": "DESIGN.md 2/C12",
         "note": "The range table in kv/props/c12.py is the trusted statement of the documented domains.",
     },
+    "C17": {
+        "level": "exploration",
+        "technique": "property-based testing with an independent strict v2 batch decoder (own varints, pure-Python CRC-32C) as oracle",
+        "text": "Generated NewRecordBatch values (non-monotone offsets/timestamps, null/empty/large keys, values, headers, full-range parameters) are written by kio and parsed by kv.refbatch; every derived header field, the CRC coverage, every length prefix and every record must be recovered exactly.",
+        "design_ref": "DESIGN.md 2/C17",
+        "note": "Trusted base: kv/refbatch.py, validated against the four real-broker batches shipped in tests/records/fixtures.py. Whole-millisecond timestamps only.",
+    },
+    "C18": {
+        "level": "fault_enumeration",
+        "technique": "reference-encoded batches x exhaustive enumeration of every single-bit flip, truncation point and wrong magic value",
+        "text": "Each reference-encoded (and each real-broker) batch is read intact (fields and records equal, write-back reproduces bytes) and under every single-bit flip from the CRC field to the end, every truncation length and every wrong magic byte; each damaged input must raise. Faults are enumerated completely per batch; batches are sampled.",
+        "design_ref": "DESIGN.md 2/C18",
+        "note": "Open known finding K-C18-subsecond-record-timestamps (reader truncates to seconds, pinned by an existing test): excluded from the main identity search by construction and probed separately.",
+    },
 }
